@@ -43,6 +43,11 @@ type Scenario struct {
 	AckFlushUs int    `json:"ack_flush_interval_us"`
 	CloseAfter int    `json:"close_after_reads"` // <0: read everything
 	Seed       int64  `json:"seed"`
+	// SharedSession: upstreams come in pairs that share source node id and session id and differ in their stream id
+	// only (two upstreams of one session - distinct upstreams all the same)
+	SharedSession bool `json:"upstream_pairs_share_node_and_session,omitempty"`
+	// CloseBudgetMs: Close gets a context of its own with this timeout (0: the run's context)
+	CloseBudgetMs int `json:"close_context_ms,omitempty"`
 }
 
 func Gen(r *rand.Rand, quickChunks int) Scenario {
@@ -74,6 +79,11 @@ func Gen(r *rand.Rand, quickChunks int) Scenario {
 		s.CloseAfter = r.Intn(s.Chunks)
 	}
 	s.Seed = r.Int63()
+	s.SharedSession = r.Intn(3) == 0
+	if r.Intn(6) == 0 {
+		// the periodic flush never comes: whatever is acknowledged is acknowledged by Close
+		s.AckFlushUs = 3600 * 1000000
+	}
 	return s
 }
 
@@ -136,7 +146,10 @@ func qos(s string) message.QoS {
 	return message.QoSUnreliable
 }
 
-func infoFor(i int) message.UpstreamInfo {
+func infoFor(i int, shared bool) message.UpstreamInfo {
+	if shared {
+		return message.UpstreamInfo{SessionID: fmt.Sprintf("sess-%d", i/2), SourceNodeID: fmt.Sprintf("node-%d", (i/2)%3), StreamID: broker.StreamIDFor("src-up", "x", i)}
+	}
 	return message.UpstreamInfo{SessionID: fmt.Sprintf("sess-%d", i), SourceNodeID: fmt.Sprintf("node-%d", i%3), StreamID: broker.StreamIDFor("src-up", "x", i)}
 }
 
@@ -239,7 +252,7 @@ func Run(s Scenario) (*Outcome, string) {
 			default:
 			}
 			ui := r.Intn(s.Upstreams)
-			info := infoFor(ui)
+			info := infoFor(ui, s.SharedSession)
 			seqs[ui]++
 			sc := SentChunk{Idx: i, Info: info, Seq: seqs[ui]}
 			// what has the client announced so far?
@@ -422,7 +435,13 @@ func Run(s Scenario) (*Outcome, string) {
 			time.Sleep(200 * time.Microsecond)
 		}
 	}
-	out.CloseErr = down.Close(ctx)
+	if s.CloseBudgetMs > 0 {
+		cctx, ccancel := context.WithTimeout(ctx, time.Duration(s.CloseBudgetMs)*time.Millisecond)
+		out.CloseErr = down.Close(cctx)
+		ccancel()
+	} else {
+		out.CloseErr = down.Close(ctx)
+	}
 	metaCancel()
 	metaWG.Wait()
 	out.FinalState = down.State()
